@@ -137,7 +137,8 @@ func (c19) Exec(sc *sim.Scenario, env *sim.Env) *sim.Violation {
 			continue
 		}
 		capacity := int(c)
-		target := make([]byte, capacity)
+		spare := (sc.Seed>>7+uint64(capacity))&1 == 1
+		target, guard := mkTarget(capacity, spare)
 		for j := range target {
 			target[j] = 0xA5 ^ byte(j)
 		}
@@ -156,6 +157,9 @@ func (c19) Exec(sc *sim.Scenario, env *sim.Env) *sim.Violation {
 			}
 			env.ObsBool(panicked)
 			obsSnap(env, after)
+			if !guardIntact(guard) {
+				return &sim.Violation{Oracle: "wrote_beyond_target", Step: i, Msg: fmt.Sprintf("cap=%d op %s: bytes behind the target slice (cap(target) > len(target)) were written", capacity, op)}
+			}
 			if after.Len > after.Cap {
 				return &sim.Violation{Oracle: "len_exceeds_cap", Step: i, Msg: fmt.Sprintf("cap=%d after %s: Len()=%d > Cap()=%d", capacity, op, after.Len, after.Cap)}
 			}
@@ -202,6 +206,21 @@ func (c19) Exec(sc *sim.Scenario, env *sim.Env) *sim.Violation {
 				}
 			}
 		}
+		// a refused label-reference instruction must leave no trace either: Finalize sees only
+		// the references of instructions that were accepted
+		{
+			wantOK, _ := m.finalizeExpect()
+			var ferr error
+			p, pv := sim.RecoverLib(func() { ferr = e.Finalize() })
+			env.ObsBool(p)
+			env.ObsErr(ferr)
+			if p {
+				return &sim.Violation{Oracle: "finalize_after_refusals_panic", Step: len(ops), Msg: fmt.Sprintf("cap=%d: Finalize after %d refused emits panicked: %s", capacity, refusals, sim.PanicString(pv))}
+			}
+			if (ferr == nil) != wantOK {
+				return &sim.Violation{Oracle: "finalize_after_refusals", Step: len(ops), Msg: fmt.Sprintf("cap=%d: Finalize returned %v, but with only the accepted instructions' references it should be ok=%v (a refused instruction left a reference behind, or an accepted one lost it)", capacity, ferr, wantOK)}
+			}
+		}
 		if refusals > 0 {
 			st.Probe("capacity_with_refusal")
 		} else {
@@ -212,7 +231,8 @@ func (c19) Exec(sc *sim.Scenario, env *sim.Env) *sim.Violation {
 
 	// twin: nil-target emitter vs ample-target emitter, same calls
 	nilE := asm.NewEmitter(nil, gentext)
-	ample := asm.NewEmitter(make([]byte, total+16), gentext)
+	ampleT, _ := mkTarget(total+16, sc.Seed&1 == 1)
+	ample := asm.NewEmitter(ampleT, gentext)
 	for i, op := range ops {
 		p1, m1 := asmApply(nilE, op)
 		p2, m2 := asmApply(ample, op)
